@@ -722,3 +722,27 @@ fn c05_scheduled_sound_starts_in_the_buffer_in_which_the_clock_reaches_its_time(
 	kani::cover!(present && !ticking && reached, "w:reached-but-paused");
 	std::mem::forget(sound); std::mem::forget(clocks);
 }
+
+// ---------------------------------------------------------------------------------------------
+// C16: one second of a sound is one second at every device rate
+// ---------------------------------------------------------------------------------------------
+// @h prop=C16,C04 tier=quick kind=main timeout=900
+// @bounds a StaticSound (source rate 1 Hz) in any playing state rendered for the same span of time on a 1 Hz device (one frame, dt = 1) and on a 2 Hz or 4 Hz device (2 or 4 frames, dt = 1/2 or 1/4; symbolic choice): the source position reached is the same
+// @funcs StaticSound::process
+// @catches the per-frame step not scaled by dt (a sound playing faster on a faster device): sounds keep their pitch and duration at every device sample rate
+#[kani::proof]
+#[kani::unwind(10)]
+fn c16_static_sound_covers_the_same_source_time_at_every_device_rate() {
+	let a = KvArenas::empty();
+	let info = a.info();
+	let (mut s1, _w, _position, playing, _lp, _tue, _slice, _reverse) = kv_any_sound(1.0, 0.0);
+	kani::assume(playing);
+	let mut s2 = kv_clone_sound(&s1);
+	let mut o1 = [Frame::ZERO; 1];
+	s1.process(&mut o1, 1.0, &info);
+	let fast: bool = kani::any();
+	if fast { let mut o = [Frame::ZERO; 4]; s2.process(&mut o, 0.25, &info); } else { let mut o = [Frame::ZERO; 2]; s2.process(&mut o, 0.5, &info); }
+	assert!(kv_same(&kv_pos(&s1), &kv_pos(&s2)), "after the same elapsed time the sound is at the same source frame whatever the device rate");
+	kani::cover!(fast, "w:4Hz-device");
+	std::mem::forget(s1); std::mem::forget(s2);
+}
